@@ -182,9 +182,18 @@ def run_item(item) -> Acc:
     cwds = {"root": root, "subdir": root / "tests", "parent": root.parent, "elsewhere": other, "grandparent": base}
     fails: dict = {}
 
-    def check(cmd, cwd_name, spelling, argv_path, kind, expect):
+    def check(cmd, cwd_name, spelling, argv_path, kind, expect, parallel=False):
         cwd = cwds[cwd_name]
-        r = obs.cli_json([cmd, argv_path], cwd)
+        if parallel:
+            # the same run with --parallel (two virtual workers): the parent's cross-file pass and the
+            # workers see the target as spelled
+            from mc.core import vpool  # noqa: PLC0415
+
+            with vpool.install(cpu_count=2):
+                vpool.SCHEDULE.update({"blocks": None, "order": None, "results": None})
+                r = obs.cli_json([cmd, "--parallel", argv_path], cwd)
+        else:
+            r = obs.cli_json([cmd, argv_path], cwd)
         got = (r["exit_code"], _norm(r["violations"], root, cwd))
         acc.case()
         acc.edge()
@@ -209,6 +218,8 @@ def run_item(item) -> Acc:
                 if not item["full"] and (sname in ("dotted", "trailing", "symlink-abs") or (cwd_name in ("subdir", "parent", "grandparent") and sname != "rel")):
                     continue
                 check(cmd, cwd_name, sname, path, "root-dir", ref[cmd])
+                if cmd in ("dry", "stringly-typed", "magic-numbers") and cwd_name in ("root", "elsewhere", "grandparent") and sname in ("abs", "rel"):
+                    check(cmd, cwd_name, sname, path, "root-dir-parallel", ref[cmd], parallel=True)
         # file target: this command's own trigger file(s)
         own = [paths for (name, _lg), paths in index.items() if cmd in (load.linters()[name].get("commands") or [])]
         for paths in own[:2]:
@@ -302,11 +313,12 @@ def replay_case(case) -> list[dict]:
     # the recorded path belongs to another scratch directory: rebuild it from the spelling
     target = root
     rel = os.path.relpath(target, cwd)
-    if case["kind"] == "root-dir":
+    if case["kind"] in ("root-dir", "root-dir-parallel"):
         path = _spellings(root, cwd, None)[case["spelling"]]
-    print(f"project at {root}\ncwd = {cwd}\n$ thailint {case['cmd']} {path}")
+    par = ["--parallel"] if case["kind"] == "root-dir-parallel" else []
+    print(f"project at {root}\ncwd = {cwd}\n$ thailint {case['cmd']} {' '.join(par)} {path}")
     if case["cmd"] != "Linter.lint":
-        r = obs.cli_subprocess([case["cmd"], "--format", "json", path], cwd)
+        r = obs.cli_subprocess([case["cmd"], "--format", "json", *par, path], cwd)
         got = _norm(obs.parse_json_out(r["stdout"]), root, cwd)
         print(f"exit={r['exit_code']} violations={len(got)}")
         b2, root2, _o, _i = _place("work", 1)
